@@ -24,8 +24,11 @@ class Gen:
         self.with_tables = with_tables
         self.with_pre = with_pre
         self.with_links = with_links
+        self.targets = []
 
     # ---- leaves ------------------------------------------------------------------------------
+
+
     def word(self):
         self.k += 1
         return ("w", "w%d" % self.k)
@@ -110,7 +113,12 @@ class Gen:
                 label = [("style", rnd.choice(free), "tag", label)]
         if label is None:
             # an unlabelled link shows its target: those words are visible text of the document
+            self.targets.append(ns + base)
             return ("link", ns + base, None)
+        if self.targets and rnd.random() < 0.3:
+            # the same page linked again under another label (its name is not shown here)
+            return ("link", rnd.choice(self.targets[-3:]), label)
+        self.targets.append(ns + base)
         return ("link", ns + base, label)
 
     # ---- blocks ------------------------------------------------------------------------------
@@ -354,10 +362,23 @@ class Ser:
         return "\n\n".join(self.block(b) for b in c[1])
 
     def blocks(self, bs):
-        out = []
+        out = ""
+        prev = None
         for b in bs:
-            out.append(self.block(b))
-        return ("\n" + self.rnd.choice(("\n", "\n", "\n\n"))).join(out)
+            txt = self.block(b)
+            if prev is not None:
+                # line-based blocks (list / definition-list lines next to paragraph lines) need no blank
+                # line between them: the line prefix alone ends the paragraph
+                tight = (self._line_based(prev) and self._line_based(b) and "para" in (prev[0], b[0])
+                         and prev[0] != b[0] and self.rnd.random() < 0.3)
+                out += "\n" if tight else "\n" + self.rnd.choice(("\n", "\n", "\n\n"))
+            out += txt
+            prev = b
+        return out
+
+    @staticmethod
+    def _line_based(b):
+        return b[0] in ("para", "dlist") or (b[0] == "list" and b[3] == "wiki")
 
     def section(self, s):
         _, level, title, body, subs = s
